@@ -1,3 +1,4 @@
+import os
 from vlib.runner import Ob
 
 # Deviations of src/caption.c from 47 CFR 15.119 / EIA 608-B found while building this check (see the C08 report).
@@ -9,7 +10,7 @@ KNOWN = [
     "KNOWN_RU_MOVE_ERASES", "KNOWN_RU_DEPTH_CHANGE_ERASES", "KNOWN_DIRECT_SHARES_BUFFERS", "KNOWN_EOC_ERASES_HIDDEN",
     "KNOWN_EOC_MOVES_CURSOR", "KNOWN_COL32_PARKED", "KNOWN_PEN_NOT_RESET_AT_ROW_START", "KNOWN_TR_NO_ERASE",
     "KNOWN_EDM_ENM_IN_TEXT_MODE", "KNOWN_F2_NO_DEDUP", "KNOWN_F2_NUL_FIRST_DROPS_PAIR", "KNOWN_CTRL_C2_RANGE",
-    "KNOWN_STALE_PAD", "KNOWN_ERASE_WITHOUT_EVENT",
+    "KNOWN_STALE_PAD", "KNOWN_ERASE_WITHOUT_EVENT", "KNOWN_CR_CLEARS_35_CELLS",
 ]
 
 STUBS = ["struct teletext carved out of vbi_decoder (models/c08_carve.h); struct caption is the real type",
@@ -36,15 +37,50 @@ def sk(name, skel, ch=0, cmp_text=0, mask=None, **kw):
     return name, d
 
 
+def odd(x):
+    return x | (0 if bin(x & 0x7F).count("1") & 1 else 0x80)
+
+
 def obligations(tier, seed):
     U = ["src/lang.c", "src/hamm.c"]
     M = ["c08_env.c"]
     defs = {k: None for k in KNOWN}
     common = dict(harness="h_c08.c", units=U, models=M, stubs=STUBS, unwind=520, solver="cadical",
-                  flags=["--max-field-sensitivity-array-size", "9"], mem_gb=3)
+                  flags=["--max-field-sensitivity-array-size", "9"], mem_gb=4)
     seqs = [
-        sk("popon_basic", "S_RCL;S_PACX(3);S_CH;S_TXA;S_EOC"),
+        # pop-on: loading into non-displayed memory, nothing visible before EOC
+        sk("popon_basic", "S_RCL;S_PACC(3);S_CH;S_TXA;S_EOC"),
+        sk("popon_indent", "S_RCL;S_PACI(14);S_TXA;S_EOC"),
+        sk("popon_midrow", "S_RCL;S_PAC(8,0);S_LIT(0x41,0x42);S_MRX;S_TXA;S_EOC"),
+        sk("popon_two_captions", "S_RCL;S_PAC(15,2);S_TXA;S_EOC;S_ENM;S_PAC(2,0x10);S_TXA;S_EOC"),
+        sk("popon_edit", "S_RCL;S_PAC(5,0x14);S_LIT(0x41,0x42);S_TXA;S_BS;S_CH;S_EOC"),
+        sk("popon_der", "S_RCL;S_PAC(5,0x14);S_TXA;S_PAC(5,0x12);S_DER;S_EOC"),
+        sk("popon_tab_special", "S_RCL;S_PAC(9,0x10);S_TO(2);S_TXA;S_SPX;S_EOC"),
+        sk("popon_col32", "S_RCL;S_PAC(13,0x1E);S_LIT(0x41,0x42);S_LIT(0x43,0x44);S_TXA;S_CH;S_EOC"),
+        sk("popon_edm_dup", "S_RCL;S_RCL;S_PAC(10,4);S_PAC(10,4);S_TXA;S_EOC;S_EOC;S_EDM"),
+        # roll-up
         sk("rollup_basic", "S_RU2;S_TXA;S_CH;S_CR;S_TXA"),
+        sk("rollup_pac", "S_RU3;S_PAC(12,6);S_TXA;S_CR;S_TXA"),
+        sk("rollup_top_clamp", "S_RU4;S_PAC(2,0);S_TXA;S_CR;S_TXA;S_CR"),
+        sk("rollup_midrow_edm", "S_RU2;S_TXA;S_MRX;S_EDM;S_TXS"),
+        sk("rollup_dup_badpar", "S_RU2;S_RU2;S_TXA;S_CR;S_CR;S_TXA;S_MISCBAD(0x2D);S_TXS"),
+        sk("rollup_datax", "S_RU3;S_LIT(0x41,0x42);S_DATAX;S_TXA;S_TXS"),
+        # paint-on
+        sk("painton_basic", "S_RDC;S_PACC(7);S_LIT(0x41,0x20);S_TXA;S_MR(5)"),
+        sk("painton_midrow", "S_RDC;S_PAC(7,0);S_TXA;S_MRX;S_TXS"),
+        sk("painton_rows", "S_RDC;S_PAC(3,0);S_LIT(0x41,0x20);S_TXA;S_PAC(6,0x12);S_TXS"),
+        sk("painton_der", "S_RDC;S_PAC(3,0x12);S_TXA;S_PAC(3,0);S_DER"),
+        # mode switches
+        sk("switch_popon_rollup", "S_RCL;S_PAC(4,0);S_TXA;S_EOC;S_RU2;S_TXA;S_CR"),
+        sk("switch_rollup_popon", "S_RU2;S_TXS;S_EDM;S_RCL;S_PAC(1,0);S_TXA;S_EOC"),
+        # text channel and back
+        sk("text_basic", "S_TR;S_TXA;S_CR;S_TXA;S_RCL;S_PAC(0,0);S_TXA;S_EOC", cmp_text=1),
+        # other channels / field 2 / F bit
+        sk("cc2_popon", "S_RCL;S_PAC(3,6);S_TXA;S_EOC", ch=1),
+        sk("cc3_rollup_284", "S_RU2;S_TXA;S_CR;S_TXA", ch=2),
+        sk("cc3_rollup_335", "S_RU2;S_CH;S_TXA;S_CR;S_TXA", ch=2, LINE_NO=335),
+        sk("cc4_popon", "S_RCL;S_PAC(11,0x18);S_TXA;S_EOC", ch=3, LINE_NO=335),
+        sk("fbit_rollup", "S_RU2;S_TXA;S_CR;S_BS;S_TXA", CTRL_F=1),
     ]
     obs = []
     for name, d in seqs:
@@ -59,5 +95,124 @@ def obligations(tier, seed):
                       bounds="skeleton fixes the command class of every step; symbolic: second byte of text pairs (8 bits), PAC attribute/indent/underline bits, "
                              "mid-row / special character code, where the step kind says so",
                       outside="sequences not matching a skeleton of the grid; other channel of the same field interleaved",
-                      assumes=ASSUMES, reach=["end", "compared"], timeout=300, vin_size=64, **common))
+                      assumes=ASSUMES, reach=["end", "compared"], timeout=400, vin_size=64, **common))
+    # ---- vbi_fetch_cc_page contract (composition step: the SEQ obligations read the page fetch copies) ----
+    fg_t = [dict(PGNO=p, HID=h, CC_BUILD_MASK="0x%x" % (1 << ((p - 1) & 7))) for p in (0, 1, 2, 4, 5, 8, 9) for h in (0, 1)]
+    fg_q = [dict(PGNO=p, HID=h, CC_BUILD_MASK="0x%x" % (1 << ((p - 1) & 7))) for (p, h) in ((1, 0), (1, 1), (6, 1), (9, 0), (0, 1))]
+    obs.append(Ob("fetch_contract", func="h_cc_fetch", defines=dict(defs), grid=fg_t, quick_grid=fg_q,
+                  desc="vbi_fetch_cc_page(pgno): TRUE iff 1 <= pgno <= 8; the page handed out is pg[hidden ^ 1] of channel pgno - 1 (header, dirty fields, an "
+                       "arbitrary cell at an arbitrary index 0..1055), the source keeps its cells, its dirty fields are reset to 'nothing to redraw', the other "
+                       "page is untouched, the mutex is released; FALSE leaves the output and the decoder untouched.  Also pins the 64-bit word view of vbi_char "
+                       "which the SEQ comparisons use (cell_layout)",
+                  encodes=["vbi_fetch_cc_page"], bounds="pgno and hidden enumerated on the grid; cell index, cell contents, dirty fields, reset flag symbolic",
+                  assumes=[], reach=["end"], timeout=200, vin_size=64, **common))
+    # ---- field 2 routing caption / XDS ----
+    rb_t = [odd(v) for v in (0x00, 0x01, 0x02, 0x0E, 0x0F, 0x10, 0x14, 0x1C, 0x1F, 0x20, 0x41, 0x7F)] + [odd(0x41) ^ 0x80, odd(0x05) ^ 0x80, odd(0x14) ^ 0x80]
+    rb_q = [odd(v) for v in (0x00, 0x01, 0x0F, 0x14, 0x41)] + [odd(0x41) ^ 0x80]
+    obs.append(Ob("field2_routing", func="h_cc_route", defines=dict(defs, CC_BUILD_MASK="0x04"),
+                  grid=[dict(RB1="0x%02x" % v) for v in rb_t], quick_grid=[dict(RB1="0x%02x" % v) for v in rb_q], remove_bodies=["xds_separator"],
+                  desc="line 284 (NTSC field 2), CC3 in roll-up mode, cc.xds symbolic, one pair with literal first byte RB1 and symbolic second byte: "
+                       "0x00 no effect; 0x01-0x0E start/continue XDS (cc.xds = 1, caption untouched); 0x0F ends it; 0x10-0x1F end XDS mode and are executed as "
+                       "caption control codes; >= 0x20 or parity error follow cc.xds: XDS payload (caption untouched) or caption text (two cells stored)",
+                  encodes=["vbi_decode_caption", "caption_command", "put_char", "word_break"], bounds="one pair; first byte on the grid, second byte symbolic",
+                  assumes=["xds_separator has no effect on the caption state (body removed: goto-instrument --remove-function-body; C09 covers the XDS demultiplexer)"],
+                  reach=["end"], timeout=200, vin_size=64, **common))
+    # ---- ITV separator ----
+    obs.append(Ob("itv_separator_step", func="h_cc_itv", defines=dict(defs, CC_BUILD_MASK="0x0"),
+                  desc="INV-STEP itv_separator (WebTV links on T2): from every itv_buf[256], itv_count in [0,255], any event mask, one character < 0x80: "
+                       "itv_count stays in [0,255] (initial 0), characters are appended (wrapping to 0 after 255 bytes), control characters and '<' hand a NUL "
+                       "terminated string inside itv_buf to vbi_atvef_trigger exactly once and restart; nothing happens without VBI_EVENT_TRIGGER; no access outside itv_buf",
+                  encodes=["itv_separator"], bounds="one step from an arbitrary state satisfying the invariant; any history by induction",
+                  assumes=["invariant 0 <= itv_count <= 255 (initial: 0 by vbi_caption_init / vbi_caption_desync)"],
+                  reach=["end", "append", "trigger"], timeout=200, vin_size=512, **common))
+    # ---- INV-STEP: one command from an arbitrary channel state (safety, invariant, frame) ----
+    cb = 0   # channel bit of CH = 0
+    def ctl(k, c2):
+        return dict(IB1="0x%02x" % odd(0x10 | (cb << 3) | k), IB2="0x%02x" % odd(c2))
+    classes = [("text_A", dict(IB1="0x%02x" % odd(0x41))), ("text_sp", dict(IB1="0x%02x" % odd(0x20))), ("text_nul", dict(IB1="0x80")),
+               ("text_badpar", dict(IB1="0x%02x" % (odd(0x41) ^ 0x80))),
+               ("pac_r1", ctl(1, 0x40)), ("pac_r15_ind28", ctl(4, 0x7E)), ("pac_r11_ital", ctl(0, 0x4F)), ("pac_invalid", ctl(0, 0x60)), ("pac_r13_ind0", ctl(3, 0x71)),
+               ("midrow", ctl(1, 0x2E)), ("special_ts", ctl(1, 0x39)), ("special", ctl(1, 0x37)), ("tab3", ctl(7, 0x23)), ("opt_bt", ctl(7, 0x2D)),
+               ("opt_fau", ctl(7, 0x2F)), ("c7_other", ctl(7, 0x24)), ("bgattr", ctl(0, 0x23)), ("extchar", ctl(2, 0x30)), ("reserved6", ctl(6, 0x20)),
+               ("c2_low_cr", ctl(4, 0x0D)), ("c2_low_special", ctl(1, 0x13)), ("c2_low_bg", ctl(0, 0x01)),
+               ("ctl_badpar", dict(IB1="0x%02x" % odd(0x14), IB2="0x%02x" % (odd(0x2D) ^ 0x80)))]
+    misc_names = ["rcl", "bs", "aof", "aon", "der", "ru2", "ru3", "ru4", "fon", "rdc", "tr", "rtd", "edm", "cr", "enm", "eoc"]
+    classes += [("misc_" + n, ctl(4, 0x20 + i)) for i, n in enumerate(misc_names)]
+    states = [("pop_r14", dict(IMODE="MODE_POP_ON", IROLL=3, IROW1=12, IROW=14, IHID=0)),
+              ("pop_r0_win0", dict(IMODE="MODE_POP_ON", IROLL=4, IROW1=0, IROW=0, IHID=1)),
+              ("roll2_r14", dict(IMODE="MODE_ROLL_UP", IROLL=2, IROW1=13, IROW=14, IHID=0)),
+              ("roll4_r3", dict(IMODE="MODE_ROLL_UP", IROLL=4, IROW1=0, IROW=3, IHID=1)),
+              ("paint_r7", dict(IMODE="MODE_PAINT_ON", IROLL=3, IROW1=5, IROW=7, IHID=1)),
+              ("text_r14", dict(IMODE="MODE_TEXT", IROLL=15, IROW1=0, IROW=14, IHID=0)),
+              ("text_r0", dict(IMODE="MODE_TEXT", IROLL=15, IROW1=0, IROW=0, IHID=1)),
+              ("none_r14", dict(IMODE="MODE_NONE", IROLL=3, IROW1=12, IROW=14, IHID=0))]
+    cd, sd = dict(classes), dict(states)
+    def inst(c, st):
+        d = dict(C08_CLS=c, C08_ST=st); d.update(cd[c]); d.update(sd[st]); return d
+    inv_t = [inst(c, st) for c, _ in classes for st, _ in states]
+    inv_q = [inst(c, st) for c, st in (("misc_cr", "roll2_r14"), ("misc_cr", "text_r14"), ("misc_cr", "pop_r0_win0"), ("pac_r15_ind28", "roll4_r3"),
+                                       ("text_A", "pop_r0_win0"), ("text_sp", "roll2_r14"), ("misc_der", "paint_r7"), ("misc_bs", "pop_r14"),
+                                       ("misc_eoc", "roll4_r3"), ("misc_ru4", "pop_r14"), ("misc_tr", "paint_r7"), ("special_ts", "text_r0"), ("tab3", "pop_r14"))]
+    obs.append(Ob("inv_step", harness="h_c08_inv.c", func="h_cc_inv", defines=dict(defs, CC_BUILD_MASK="0x11"), grid=inv_t, quick_grid=inv_q,
+                  desc="INV-STEP: one byte pair of class CLS (first byte / control code literal, second byte of text pairs symbolic) from an ARBITRARY state of the "
+                       "channel (all 2 x 510 cells, column and word start 1 <= col1 <= col <= 33, pen, null counter, repetition memory symbolic; mode, hidden page, "
+                       "roll-up depth, window top and cursor row = state ST of the grid): the representation invariant holds again (cursor in range, "
+                       "line == pg[hidden].text + row * 34, window inside the 15 rows), the members of vbi_page next to text[] and the 34 cells behind row 15 are "
+                       "untouched, the mutex is released and never held while an event is sent, all CBMC safety checks of the decoder code",
+                  encodes=["vbi_decode_caption", "caption_command", "put_char", "put_char_space", "word_break", "update", "render", "clear", "roll_up", "erase_memory",
+                           "set_cursor", "switch_channel", "vbi_caption_unicode"],
+                  bounds="one step; state and class on the grid (quick: 13 pairs; thorough: 39 classes x 8 states), everything else symbolic; histories of any length by "
+                         "induction over the invariant (initial state: obligation seq_* prologue + native init check)",
+                  outside="cursor rows other than those of the grid states (0, 3, 7, 14); channel CC1/T1 only",
+                  assumes=["representation invariant of cc_channel (asserted again after the step)"], reach=["end"], timeout=400, vin_size=8300,
+                  **{k: v for k, v in common.items() if k != "harness"}))
+    # ---- deviations from the standard: each KNOWN_* macro switched off on a sequence that shows it (expected: REFUTED + native replay) ----
+    if os.environ.get("VERIF_C08_DEVIATIONS") == "1":
+        devs = [
+            ("KNOWN_FON_NOT_SPACING", "S_RU2;S_TXA;S_FON;S_TXS", {}),
+            ("KNOWN_MR_ITALIC_WHITE", "S_RU2;S_MR(8);S_MR(0xE);S_TXA;S_TXS", {}),
+            ("KNOWN_TAB_ERASES", "S_RCL;S_PAC(3,0);S_TXA;S_TXA;S_PAC(3,0);S_TO(2);S_EOC", {}),
+            ("KNOWN_PAC_INDENT_ERASES", "S_RCL;S_PAC(3,0);S_TXA;S_TXA;S_TXA;S_PAC(3,0x12);S_EOC", {}),
+            ("KNOWN_CR_IN_POPON", "S_RCL;S_PAC(2,0);S_TXA;S_CR;S_TXA;S_EOC", {}),
+            ("KNOWN_RU_MOVE_ERASES", "S_RU2;S_TXA;S_TXS;S_PAC(8,0)", {}),
+            ("KNOWN_RU_DEPTH_CHANGE_ERASES", "S_RU3;S_TXA;S_TXS;S_RU2", {}),
+            ("KNOWN_DIRECT_SHARES_BUFFERS", "S_RU2;S_TXA;S_TXS;S_RCL;S_PAC(2,0);S_TXA;S_EOC", {}),
+            ("KNOWN_EOC_ERASES_HIDDEN", "S_RCL;S_PAC(2,0);S_TXA;S_EOC;S_EOC;S_EOC", {}),
+            ("KNOWN_EOC_MOVES_CURSOR", "S_RCL;S_PAC(2,0);S_EOC;S_TXA;S_EOC", {}),
+            ("KNOWN_COL32_PARKED", "S_RCL;S_PAC(13,0x1E);S_TXA;S_TXA;S_BS;S_EOC", {}),
+            ("KNOWN_PEN_NOT_RESET_AT_ROW_START", "S_RU2;S_MR(8);S_TXA;S_CR;S_TXA;S_TXS", {}),
+            ("KNOWN_TR_NO_ERASE", "S_TR;S_TXA;S_TXS;S_TR", dict(cmp_text=1)),
+            ("KNOWN_EDM_ENM_IN_TEXT_MODE", "S_RCL;S_PAC(2,0);S_TXA;S_EOC;S_TR;S_EDM", dict(cmp_text=1)),
+            ("KNOWN_F2_NO_DEDUP", "S_RU2;S_TXA;S_CR;S_CR;S_TXS", dict(ch=2, LINE_NO=335)),
+            ("KNOWN_F2_NUL_FIRST_DROPS_PAIR", "S_RU2;S_CH;S_TXS", dict(ch=2)),
+            ("KNOWN_CTRL_C2_RANGE", "S_RU2;S_TXA;S_TXS;S_CTL(4,0x0D)", {}),
+            ("KNOWN_STALE_PAD", "S_RU2;S_TXA;S_TXS;S_PAC(9,0);S_DER", {}),
+            ("KNOWN_ERASE_WITHOUT_EVENT", "S_RCL;S_PAC(2,0);S_TXA;S_EOC;S_RU2", {}),
+            ("KNOWN_CR_CLEARS_35_CELLS", "S_RU2;S_CR", {}),
+        ]
+        for mac, skel, kw in devs:
+            name, d = sk("dev_" + mac[6:].lower(), skel, **kw)
+            dd = {k: None for k in KNOWN if k != mac}; dd.update(d)
+            obs.append(Ob(name, func="h_cc_seq", defines=dd, tier="deviation",
+                          desc="DEVIATION DEMO: skeleton %s with %s switched off (reference model strict): expected to be REFUTED with a native replay" % (skel, mac),
+                          encodes=["vbi_decode_caption"], bounds="see seq_*", assumes=ASSUMES, reach=["end"], timeout=400, vin_size=64, **common))
+    # ---- sensitivity: mutants of src/caption.c (scratch copy through patch=), each must be REFUTED by the named skeleton ----
+    if os.environ.get("VERIF_C08_MUTANTS") == "1":
+        seqd = dict(seqs)
+        muts = [
+            ("putchar_off_by_one", "popon_col32", [(r"if \(ch->col < COLUMNS - 1\)\n\t\tch->line\[ch->col\+\+\] = c;", "if (ch->col < COLUMNS)\n\t\tch->line[ch->col++] = c;")]),
+            ("palette_swapped", "popon_basic", [(r"VBI_WHITE, VBI_GREEN, VBI_BLUE, VBI_CYAN,", "VBI_WHITE, VBI_BLUE, VBI_GREEN, VBI_CYAN,")]),
+            ("row_mapping_swapped", "painton_rows", [(r"11, 12, 13, 14,  4, 5, 6, 7, 8, 9", "12, 11, 13, 14,  4, 5, 6, 7, 8, 9")]),
+            ("eoc_no_flip", "popon_basic", [(r"ch->hidden \^= 1;", ";")]),
+            ("no_dedup_field1", "popon_edm_dup", [(r"&& buf\[1\] == cc->last\[1\]\) \{", "&& buf[1] == cc->last[1] && 0) {")]),
+            ("event_with_mutex", "rollup_basic", [(r"pthread_mutex_unlock\(&vbi->cc\.mutex\);\n\n\tvbi_send_event\(vbi, ev\);\n\n\tpthread_mutex_lock\(&vbi->cc\.mutex\);", "vbi_send_event(vbi, ev);")]),
+            ("cr_rolls_one_row_too_many", "rollup_basic", [(r"\(ch->roll - 1\) \* COLUMNS\)", "(ch->roll) * COLUMNS)")]),
+            ("erase_one_row_too_many", "rollup_basic", [(r"for \(i = 0; i < COLUMNS \* ROWS; acp\+\+, i\+\+\)", "for (i = 0; i < COLUMNS * ROWS + COLUMNS; acp++, i++)")]),
+            ("midrow_keeps_italic", "popon_midrow", [(r"if \(c2 < 7\) \{\n\t\t\t\tch->attr.italic = FALSE;\n\t\t\t\tch->attr.foreground = palette_mapping\[c2\];\n\t\t\t\} else \{\n\t\t\t\tch->attr.italic = TRUE;\n\t\t\t\tch->attr.foreground = VBI_WHITE;\n\t\t\t\}\n\n\t\t\t/\* 47 CFR", "if (c2 < 7) {\n\t\t\t\tch->attr.foreground = palette_mapping[c2];\n\t\t\t} else {\n\t\t\t\tch->attr.italic = TRUE;\n\t\t\t\tch->attr.foreground = VBI_WHITE;\n\t\t\t}\n\n\t\t\t/* 47 CFR")]),
+        ]
+        for mname, base, subs in muts:
+            dd = dict(defs); dd.update(seqd[base])
+            obs.append(Ob("mut_" + mname, func="h_cc_seq", defines=dd, tier="mutant", patch={"src/caption.c": subs},
+                          desc="MUTANT %s of src/caption.c under skeleton %s: expected REFUTED" % (mname, base),
+                          encodes=["vbi_decode_caption"], bounds="see seq_*", assumes=ASSUMES, reach=["end"], timeout=400, vin_size=64, **common))
     return obs
